@@ -1,4 +1,5 @@
-\* thorough tier: products thinned by 2 at most, exhaustive sequences up to length 3; Seed is replaced per run
+\* thorough tier: big products thinned by 2 (Thin = 2; T(d) = 1 for the others), instruction sequences up to length 3
+\* exhaustive (22 opcodes x 3 initial stacks); Seed is replaced per run
 INIT Init
 NEXT Next
 CONSTANTS
